@@ -179,6 +179,17 @@ def Triangle.inter (a b : List Cell) : Except Err (List Cell) :=
 def Triangle.diff (a b : List Cell) : Except Err (List Cell) :=
   Triangle.ofCells (a.filter (fun c => !Triangle.mem c b))
 
+/-- `a | b` (`Set.__or__`): `Triangle(e for s in (self, other) for e in s)`.  Nothing de-duplicates:
+the chain yields every cell of both operands and the constructor keeps duplicates, so `a | b`
+is `a + b`. -/
+def Triangle.union (a b : List Cell) : Except Err (List Cell) := Triangle.ofCells (a ++ b)
+
+/-- `a ^ b` (`Set.__xor__`): `(self - other) | (other - self)` -/
+def Triangle.symdiff (a b : List Cell) : Except Err (List Cell) := do
+  let x ← Triangle.diff a b
+  let y ← Triangle.diff b a
+  Triangle.union x y
+
 /-- `a.isdisjoint(b)`: no value of `other` is in `self` -/
 def Triangle.isdisjoint (a b : List Cell) : Bool := b.all (fun c => !Triangle.mem c a)
 
